@@ -448,6 +448,8 @@ PLANS["C05"] = {
     "rule": "evaluations = public calls executed; a case is one (operation kind, abandoned call kind / kill instant class, outcome) tuple",
     "stages": [
         T("reopen", "reopen", (24, 600), ["InvReopen", "InvAudit", "InvOneTx"], backends="bolt,badger", args=["-txlog"], chunk=6),
+        # a data file of several MB of which more than half is freed, then reopened, written to, reopened
+        T("shrink-reopen", "shrinkreopen", (2, 12), ["InvReopen", "InvAudit"], backends="bolt,badger", chunk=1, heap="8g", seed_off=47),
         T("abandon", "-", (4, 40), ["InvFault", "InvFaultRest", "InvReopen", "InvNoPanic"], cmd="fault",
           args=["-mode", "abandon", "-targets", "7"], chunk=1),
         # single failed calls followed by acknowledged writes on the same handle, then close / reopen: what a failed
